@@ -356,6 +356,48 @@ def run_standin(suite, tier, seed, prop, open_ids):
     return res
 
 
+def native_replay(scenario):
+    """Run one concrete scenario (a unit's witness built from the solver's counter-model) natively under /venv/bin/python
+    against the tree the VCs came from.  Returns {"reproduced": bool, ...} or None when there is no driver for it."""
+    import subprocess
+    import tempfile
+    try:
+        with tempfile.NamedTemporaryFile("w", suffix=".json", delete=False) as fh:
+            json.dump({"scenario": scenario}, fh, default=str)
+            path = fh.name
+        env = dict(os.environ)
+        env["PYTHONPATH"] = os.path.join(loader.REPO, "src") + os.pathsep + VERIF
+        p = subprocess.run(["/venv/bin/python", os.path.join(VERIF, "standins", "native.py"), "--replay", path],
+                           capture_output=True, text=True, timeout=120, cwd=VERIF, env=env)
+        os.unlink(path)
+        d = json.loads(p.stdout.strip().splitlines()[-1])
+        if d.get("reproduced") is None:
+            return None
+        d["replayed_counter_model"] = scenario
+        d["replay_cmd"] = "/venv/bin/python standins/native.py --replay <this file>"
+        return d
+    except Exception as exc:      # a replay problem is never a verdict
+        return {"reproduced": False, "error": repr(exc)}
+
+
+def model_values(model):
+    """name -> Python int/bool of the constants of a counter-model (names as created by ctx.fresh_*: `v!0`)"""
+    out = {}
+    if model is None:
+        return out
+    for d in model.decls():
+        if d.arity() == 0:
+            v = model[d]
+            try:
+                if z3.is_int_value(v):
+                    out[d.name()] = v.as_long()
+                elif z3.is_true(v) or z3.is_false(v):
+                    out[d.name()] = z3.is_true(v)
+            except Exception:
+                pass
+    return out
+
+
 def load_known_findings():
     path = os.path.join(VERIF, "known_findings.json")
     with open(path) as fh:
@@ -451,7 +493,14 @@ def run_check(prop, units, tier, seed, level, technique_text, trusted_base, repl
         violations += 1
         rp = os.path.join(OUT, "replays", "%s-%s.json" % (prop, _slug(o["name"])))
         replay_result = None
-        if native_witness is not None and not o.get("native"):
+        if o.get("scenario") and not o.get("native"):
+            # the verifier's own counter-model, made concrete by the unit and replayed against the real code of this tree
+            replay_result = native_replay(o["scenario"])
+            if not (replay_result and replay_result.get("reproduced")):
+                replay_result = None
+        if replay_result is not None:
+            pass
+        elif native_witness is not None and not o.get("native"):
             # the bounded stand-in of this property found a concrete failing input on this tree: it is the replay
             replay_result = {"reproduced": True, "native_witness": native_witness.get("scenario"),
                              "observed": native_witness.get("observed"), "required": native_witness.get("required"),
